@@ -113,6 +113,40 @@ ECHO_FETCH = ['ENVELOPE', 'BODYSTRUCTURE', 'BODY', 'FULL', 'ALL',
               'EMAILID', 'THREADID', 'INTERNALDATE']
 
 
+_ATOM_SAFE = set('abcdefghijklmnopqrstuvwxyzABCDEFGHIJKLMNOPQRSTUVWXYZ'
+                 '0123456789-_.$#!+:;=?@^`|~&<>,/\'')
+
+
+def header_fields_attr(rng: random.Random) -> tuple[str, list[str]]:
+    """A BODY.PEEK[HEADER.FIELDS[.NOT] (...)] item whose field names are
+    client-chosen strings spelled as atom, quoted string or literal+; the
+    server echoes the names in the FETCH response."""
+    names = []
+    parts = []
+    for _ in range(rng.randint(1, 4)):
+        r = rng.random()
+        if r < 0.3:
+            name = rng.choice(['Subject', 'from', 'X-Token', 'DATE', 'to'])
+        else:
+            name = ''.join(c for c in tricky_text(rng, 1, 6)
+                           if ord(c) < 256 and c != '\x00')[:40] or 'x'
+        names.append(name)
+        safe = all(c in _ATOM_SAFE for c in name)
+        if safe and rng.random() < 0.5:
+            parts.append(name)
+        elif '\r' not in name and '\n' not in name and rng.random() < 0.6:
+            parts.append('"' + name.replace('\\', '\\\\')
+                         .replace('"', '\\"') + '"')
+        else:
+            parts.append('{%d+}\r\n%s' % (len(name), name))
+    prefix = rng.choice(['', '', '1.', '2.1.'])
+    attr = 'BODY.PEEK[%sHEADER.FIELDS%s (%s)]' % (
+        prefix, rng.choice(['', '.NOT']), ' '.join(parts))
+    if rng.random() < 0.2:
+        attr += '<0.%d>' % rng.randint(1, 50)
+    return attr, names
+
+
 def name_action(rng, kind, name: str, **extra) -> dict:
     act = dict(extra, kind=kind, sess=0)
     try:
@@ -172,6 +206,11 @@ def gen_echo_case(rng: random.Random, tier: str, backends=('dict',)) -> dict:
         steps.append({'actions': [{'sess': 0, 'kind': 'fetch',
                                    'uid': rng.random() < 0.3, 'set': '1:*',
                                    'attrs': attrs}]})
+    for _ in range(rng.choice([0, 1, 1, 2, 3])):
+        attr, hdr_names = header_fields_attr(rng)
+        steps.append({'actions': [{'sess': 0, 'kind': 'fetch',
+                                   'uid': rng.random() < 0.3, 'set': '1:*',
+                                   'attrs': attr, 'hdr_names': hdr_names}]})
     steps.append({'actions': [{'sess': 0, 'kind': 'search',
                                'keys': rng.choice(['ALL', 'SUBJECT a',
                                                    'FROM x', 'TEXT b'])}]})
@@ -198,14 +237,45 @@ def gen_echo_case(rng: random.Random, tier: str, backends=('dict',)) -> dict:
     return {'config': cfg, 'steps': steps, 'family': 'echo'}
 
 
+def check_header_echo(ctx: Ctx, act: dict, cmd, index: int) -> None:
+    """The header list the server echoes in the item name denotes the field
+    names the client asked for (compared decoded, case-insensitively)."""
+    from sim.wire import WireError, section_header_names
+    want = sorted({n.encode('latin-1').upper() for n in act['hdr_names']})
+    for r in cmd.untagged:
+        if r.name != b'FETCH':
+            continue
+        for key in r.data:
+            if not isinstance(key, bytes) or \
+                    b'HEADER.FIELDS' not in key.upper():
+                continue
+            try:
+                got = section_header_names(key)
+            except WireError as exc:
+                got = ['<%s>' % exc]
+            if got is None:
+                continue
+            if sorted({bytes(g).upper() for g in got}) != want:
+                ctx.violate('C07', 'echo.header-list', 'step %d FETCH %s: '
+                            'asked for header fields %r, the response item '
+                            'name %r denotes %r' % (index, act['attrs'][:80],
+                                                    want, key[:120], got),
+                            sig={'what': 'header-list'})
+                return
+
+
 def run_echo(case: dict, trace: bool = False) -> dict:
     ctx = Ctx(case, trace=trace)
     try:
         n = 0
         for i, step in enumerate(case['steps']):
-            ctx.run_step(step, i)
+            cmds = ctx.run_step(step, i)
             n += 1
             cl = ctx.clients.get(0)
+            act = step['actions'][0]
+            if act.get('hdr_names') is not None and cmds and \
+                    cmds[0] is not None and cmds[0].ok:
+                check_header_echo(ctx, act, cmds[0], i)
             if cl is not None:
                 cl.pending.clear()
                 if cl.conn.done or cl.stream.error is not None:
@@ -233,7 +303,10 @@ class C07(Profile):
             'non-ASCII, 62-66 and 5000 character values), appends messages '
             'with hostile headers, MIME parameters and nesting shapes and '
             'makes the server echo them through LIST/LSUB/STATUS/FETCH '
-            'ENVELOPE/BODYSTRUCTURE/BODY/.../SEARCH/STORE/ID; (inputs, 20%) '
+            'ENVELOPE/BODYSTRUCTURE/BODY/.../SEARCH/STORE/ID, and fetches '
+            'BODY[HEADER.FIELDS (...)] with hostile field names spelled as '
+            'atom/quoted/literal+, whose echo must denote the same names; '
+            '(inputs, 20%) '
             'the C06 line and stored-message generator; (concurrent, 15%) '
             'the C01 multi-session generator; (model, 15%) the C10 program '
             'generator. Non-trivial = at least 5 steps executed.')
